@@ -30,6 +30,74 @@ pub fn c18_extra(chk: &Check, tier: Tier, heavy: &std::sync::atomic::AtomicU64) 
         }
         Err(p) => chk.violate(xs::Violation::new("no-panic-on-valid-input", format!("C18/panics-on-valid-input/polling-scanner-real-clock/{}", chk.part), format!("polling scanner with the real clock panicked: {}", p))),
     }
+    handover(chk, heavy);
+}
+
+/// A scanner is a plain `Copy + Send` value: it may be fed on one thread and polled on another
+/// that started later (per-thread bookkeeping of time would make the second thread's readings
+/// incomparable with the first one's). Every prefix of [99, 98, 6, 38, 96] is fed on a thread A, the
+/// scanner is handed to a thread B started afterwards, which polls, feeds the rest and polls
+/// again; timeouts 0, 20 ms and Duration::MAX, with and without a pause before the hand-over. No
+/// panic allowed; with timeout 0 the first poll must deliver a pending data entry MSB, with
+/// Duration::MAX it must not.
+fn handover(chk: &Check, heavy: &std::sync::atomic::AtomicU64) {
+    use core::time::Duration;
+    use helgoboss_midi::*;
+    let msgs = conform::msgs();
+    // indices into conform::msgs(): 0 = CC 99, 1 = CC 98, 4 = CC 6, 6 = CC 38, 7 = CC 96
+    let seq = [0usize, 1, 4, 6, 7];
+    let mut runs = 0u64;
+    for (ti, timeout) in [Duration::ZERO, Duration::from_millis(20), Duration::MAX].into_iter().enumerate() {
+        for k in 0..=seq.len() {
+            for pause_ms in [0u64, 30] {
+                let msgs_a = msgs.clone();
+                let fed = std::thread::spawn(move || {
+                    let mut sc = PollingParameterNumberMessageScanner::new(timeout);
+                    for &i in &seq[..k] {
+                        let _ = sc.feed(&msgs_a[i]);
+                    }
+                    sc
+                })
+                .join();
+                let sc = match fed {
+                    Ok(sc) => sc,
+                    Err(_) => {
+                        chk.violate(xs::Violation::new("no-panic-on-valid-input", format!("C18/panics-on-valid-input/polling-scanner-handover/{}", chk.part), "feeding on the first thread panicked".to_string()));
+                        continue;
+                    }
+                };
+                if pause_ms > 0 {
+                    std::thread::sleep(Duration::from_millis(pause_ms));
+                }
+                let msgs_b = msgs.clone();
+                let r = std::thread::spawn(move || {
+                    let mut sc = sc;
+                    let first = sc.poll(Channel::new(3));
+                    for &i in &seq[k..] {
+                        let _ = sc.feed(&msgs_b[i]);
+                    }
+                    let _ = sc.poll(Channel::new(3));
+                    first
+                })
+                .join();
+                runs += 1;
+                match r {
+                    Err(_) => chk.violate(xs::Violation::new("no-panic-on-valid-input", format!("C18/panics-on-valid-input/polling-scanner-handover/{}", chk.part), format!("a scanner (timeout index {}) fed {} messages on one thread panicked when polled / fed on a thread started {} ms later", ti, k, pause_ms))),
+                    Ok(first) => {
+                        // k == 3: exactly [99, 98, 6] fed -> a data entry MSB is pending
+                        if k == 3 && ti == 0 && first.is_none() {
+                            chk.violate(xs::Violation::new("no-panic-on-valid-input", format!("C18/handover-changes-result/polling-scanner-handover/{}", chk.part), "timeout 0: the pending data entry MSB was not delivered by a poll on another thread".to_string()));
+                        }
+                        if k == 3 && ti == 2 && first.is_some() {
+                            chk.violate(xs::Violation::new("no-panic-on-valid-input", format!("C18/handover-changes-result/polling-scanner-handover/{}", chk.part), "timeout Duration::MAX: a poll on another thread delivered the pending data entry MSB".to_string()));
+                        }
+                    }
+                }
+            }
+        }
+    }
+    heavy.fetch_add(runs * 7, std::sync::atomic::Ordering::Relaxed);
+    chk.set("thread_handover_runs", json!(runs));
 }
 
 fn main() {
